@@ -678,10 +678,16 @@ pub fn c10_process_world(ctx: &Ctx, scn: &crate::props::c10::Scn, sc: &Scale, ex
             let json_name = format!("r{}.json", seq);
             argv.push("--json".into());
             argv.push(json_name.clone());
-            let inc = Incarnation { argv, entropy, plan: Vec::new(), debug_build: false };
+            // "in another process": the other process also meets other I/O behaviour - every second incarnation reads
+            // its input through interrupted and shortened calls (benign set, placed on the calls it really makes)
+            let plan = if seq % 2 == 1 { vec![PlanEntry { idx: entropy ^ 0x5eed, kind: PlanKind::Measured(0) }] } else { Vec::new() };
+            let inc = Incarnation { argv, entropy, plan, debug_build: false };
             let out = run_incarnation(ctx, &disk, &inc, seq);
             seq += 1;
             outcome_digest(fp, &out);
+            for f in out.faults_fired() {
+                ex.count(&format!("fault_fired:{}", f), 1);
+            }
             ex.count("process_incarnations", 1);
             ex.count("tracked_syscalls", out.trace.len() as u64);
             let json = disk.read(&json_name).and_then(|b| serde_json::from_slice::<serde_json::Value>(&b).ok());
